@@ -221,6 +221,17 @@ def s_opt(x):
 KINDCHAR = {"disp": "D", "exch": "X", "cell": "C", "ham": "H", "user": "U"}
 
 
+def label_array(o):
+    """the labels as the user hands them over: a Python list or an integer array of any width; unsigned only when no label
+    is negative (a negative default label or automatic labels must still come out right after insertions)"""
+    dt = o.get("label_dtype", "int64")
+    if dt == "list":
+        return [int(x) for x in o["labels"]]
+    if dt.startswith("u") and any(x < 0 for x in o["labels"]):
+        dt = "int64"
+    return np.array(o["labels"], dtype=dt)
+
+
 class Sim:
     """a real quansino simulation assembled from a case dictionary"""
 
@@ -284,10 +295,10 @@ class Sim:
         for o in case["objs"]:
             k = o["kind"]
             if k == "disp":
-                m = DisplacementMove(np.array(o["labels"], dtype=int), operation=ScriptedOp(streams, "disp"),
+                m = DisplacementMove(label_array(o), operation=ScriptedOp(streams, "disp"),
                                      apply_constraints=o["apply_constraints"])
             elif k == "exch":
-                m = ExchangeMove(np.array(o["labels"], dtype=int), operation=ScriptedOp(streams, "disp"),
+                m = ExchangeMove(label_array(o), operation=ScriptedOp(streams, "disp"),
                                  bias_towards_insert=o["bias"] / 1000.0, apply_constraints=o["apply_constraints"])
             elif k == "cell":
                 m = CellMove(operation=ScriptedOp(streams, "cell"), scale_atoms=o["scale_atoms"],
@@ -339,7 +350,35 @@ class Sim:
 
     # ------------------------------------------------------------------ running
 
+    def replace_entry(self, name):
+        """the user replaces the move of a table entry by a fresh, identically configured object under the SAME name
+        (`mc.moves[name].move = new`): from then on the new object is the one that runs and is notified"""
+        from quansino.moves.displacement import DisplacementMove
+        from quansino.moves.exchange import ExchangeMove
+
+        st = self.mc.moves[name]
+        old = st.move
+        i = next((k for k, o in enumerate(self.objs) if o is old), None)
+        if i is None or type(old) not in (DisplacementMove, ExchangeMove):
+            return
+        if type(old) is ExchangeMove:
+            new = ExchangeMove(np.array(old.labels, copy=True), operation=old.operation,
+                               bias_towards_insert=old.bias_towards_insert, apply_constraints=old.apply_constraints)
+        else:
+            new = DisplacementMove(np.array(old.labels, copy=True), operation=old.operation,
+                                   apply_constraints=old.apply_constraints)
+        new.max_attempts = old.max_attempts
+        new.check_move = old.check_move
+        new.default_label = old.default_label
+        st.move = new
+        self.objs[i] = new
+        for oid, top in list(self.tops.items()):
+            if top is old:
+                self.tops[oid] = new
+
     def run_trial(self, tr):
+        if tr.get("replace"):
+            self.replace_entry(tr["name"])
         self.rng.draws = list(tr["draws"])
         self.streams.ops = [list(v) for v in tr["ops"]]
         self.streams.checks = [bool(c) for c in tr["checks"]]
@@ -563,6 +602,7 @@ def gen_case(rng, ens, tier, max_trials=None):
         o = {"kind": k, "labels": [], "default_label": None, "bias": 500, "max_attempts": rng.choice([1, 1, 2, 3]),
              "apply_constraints": rng.random() < 0.8, "scale_atoms": rng.random() < 0.7, "user_result": rng.random() < 0.7}
         if k in ("disp", "exch"):
+            o["label_dtype"] = rng.choice(["int64", "int64", "int64", "int32", "int16", "uint16", "uint8", "list"])
             o["labels"] = list(shared_labels) if homogeneous else gen_labels(rng, n)
             o["default_label"] = shared_default if homogeneous else rng.choice([None, None, None, 0, 7, -1])
             o["bias"] = rng.choice([500, 500, 0, 1000, 300])
@@ -661,6 +701,9 @@ def gen_case(rng, ens, tier, max_trials=None):
             r = rng.choice(tree_refs(e["tree"]))
             if objs[r]["labels"]:
                 tr["presel"].append([r, "D", rng.choice(objs[r]["labels"])])
+        if (e["tree"][0] == "L" and objs[e["tree"][1]]["kind"] in ("disp", "exch") and rng.random() < 0.06
+                and sum(1 for t in table if e["tree"][1] in tree_refs(t["tree"])) == 1):
+            tr["replace"] = True        # the entry's move object is replaced by an identical fresh one before this trial
         if e.get("swap"):
             x0, x1 = e["tree"][1]
             lab = rng.choice(objs[x0]["labels"] + [99]) if objs[x0]["labels"] else 0
